@@ -173,6 +173,9 @@ theorem C03_mono_sensitive (cfg : Cfg) (sfh : Bool) (a b : Ty) (h : asg cfg sfh 
     asg cfg sfh (.sensitive a) (.sensitive b) = true := mono_sensitive cfg sfh a b h
 theorem C03_mono_iterable (cfg : Cfg) (sfh : Bool) (a b : Ty) (h : asg cfg sfh a b = true) :
     asg cfg sfh (.iterable a) (.iterable b) = true := mono_iterable cfg sfh a b h
+/-- Iterator[T] (inside the model since the extension round) is one more covariant hole; it is also a constructor of `Ctx` (`C03_mono_ctx`) -/
+theorem C03_mono_iterator (cfg : Cfg) (sfh : Bool) (a b : Ty) (h : asg cfg sfh a b = true) :
+    asg cfg sfh (.iterator a) (.iterator b) = true := mono_iterator cfg sfh a b h
 
 /-! ### widening a range in the receiver never turns acceptance into rejection -/
 theorem C03_widen_int (cfg : Cfg) (sfh : Bool) (r r' : Rng) (hr : r'.sub r = true) (b : Ty) (hb : b.NoAliasR)
